@@ -706,7 +706,14 @@ def c14(run):
     for (m, n, e) in graph_instances(rng, 300 if quick else 3000, 30, True):
         rt.append("network 0 1 0 %s" % mat_tokens(m, n, e))
     run.batch("roundtrip-recognition", rt, "asan")
-    return dict(rule="exhaustive: every multigraph with <=%d nodes and <=%d edges (loops, parallel edges, isolated nodes, several components) x "
+    rt2 = []
+    for _ in range(15000 if quick else 200000):
+        signed = rng.random() < 0.5
+        m, n, e = glued_cycle_matrix(rng, rng.choice((1, 2, 3)), signed)
+        rt2.append("@want=yes %s 0 1 0 %s" % ("network" if signed else "graphic", mat_tokens(m, n, e)))
+    run.batch("roundtrip-glued-graphs", rt2, "plain")
+    return dict(rule="constructed matrices of graphs glued from 3-connected graphs, K4s, cycles and bonds must be recognised (and the returned "
+                "graph reproduce them); exhaustive: every multigraph with <=%d nodes and <=%d edges (loops, parallel edges, isolated nodes, several components) x "
                 "every edge subset offered as forest (forests, non-forests, partial) x both the graphic and the network constructor with "
                 "seeded orientations/reversal flags and shuffled forest/coforest order; matrix, transpose and forest flag compared with the "
                 "model; random graphs up to 120/300 edges with broken forests; constructed matrices sent through recognition and the "
@@ -2061,6 +2068,8 @@ def c10(run):
         if rng.random() < 0.5:
             mask = (rng.getrandbits(13) & ~3 & ~(B_STOP_IRR | B_STOP_NG | B_STOP_NCG | B_STOP_NEITHER)) | strategy(rng.randrange(5))
             mask |= B_SP | B_DIRECT     # D7/D7b: the configurations without these abort on series-parallel inputs (known findings)
+            if rng.random() < 0.3:
+                mask &= ~B_DIRECT       # sequence mode of the (co)graphicness tests; aborts of D7 are matched as known findings
             if not signed: mask &= ~B_TERNARY
         if signed: mask |= B_TERNARY
         if m <= 6 and n <= 6 and rng.random() < 0.5:
@@ -2072,6 +2081,20 @@ def c10(run):
         for _ in range(ntr_total // per):
             gs = [c10_transformation(rng, m, n, signed, M) for _ in range(per)]
             lines.append("rel %d %s %s %d %s" % (mask, ",".join(recs), mt, per, " ".join(gs)))
+    # many presentations of one (co)network matrix: permutations only, the four graph-based recognizers
+    pres = []
+    for _ in range(300 if quick else 3000):
+        signed = rng.random() < 0.5
+        M = net_piece(rng, signed, 8, 22) if rng.random() < 0.5 else rows_of(*(lambda t: (t[0], t[1], t[2]))(glued_cycle_matrix(rng, rng.choice((2, 3)), signed)))
+        m, n = len(M), len(M[0])
+        gs = []
+        for _ in range(8):
+            rp = list(range(m)); cp = list(range(n)); rng.shuffle(rp); rng.shuffle(cp)
+            g = "P %s %s" % (" ".join(map(str, rp)), " ".join(map(str, cp)))
+            gs.append("2 %s T" % g if rng.random() < 0.3 else "1 %s" % g)
+        pres.append("rel %d %s %s %d %s" % (DEFAULT_MASK if signed else DEFAULT_MASK & ~B_TERNARY, "net,con,gra,cog" if not signed else "net,con",
+                                            mat_tokens(m, n, flat_of(M)), len(gs), " ".join(gs)))
+    run.batch("presentations-of-network-matrices", pres, "plain")
     cut = len(lines) * 3 // 4
     run.batch("transformations", lines[:cut], "plain")
     run.batch("transformations-sanitized", lines[cut:], "asan")
